@@ -10,7 +10,8 @@ ID = "C09"
 LEVEL = "exploration"
 ENGINE = "E3 stack"
 TECHNIQUE = ("deterministic simulation of the whole bring-up (real AshProtocol/Gateway/EZSP) against a framing-aware reference NCP in virtual "
-             "time: complete grid of NCP version x device path x start-up-reset timing, seeded link faults and schedules beyond")
+             "time: complete grid of NCP version x device path x start-up-reset timing, seeded link faults and schedules beyond"
+             ' The whole-stack soak (dst/soak.py: one ControllerApplication object through several connect/traffic/failure/reconnect epochs) is a further seeded scenario of this check.')
 LEVEL_TEXT = ("the grid NCP version 4..20 x {serial, socket} x start-up-reset timing {absent, early, exactly at the 1 s wait, late while the "
               "host's RST is buffered, after it} is swept completely on a fault-free link (bring-up, default configuration write, second "
               "reset + renegotiation must all succeed and be framed for the NCP); seeded runs add link faults, read chunking and scheduler "
@@ -43,14 +44,20 @@ def plan(tier):
     return {
         "sweeps": sweeps,
         "exhaustive": "all cells NCP version 4..20 x {serial; socket:// x start-up reset {absent, 0.2 s, 0.999 s, exactly 1.0 s, 1.2 s, 2.5 s}} on a fault-free link with the benign schedule",
-        "random": [("random", {}, 1)],
-        "runs": 2500 if tier == "quick" else None,
+        "random": [("random", {}, 8), ("soak", {}, 1)],
+        "runs": 2800 if tier == "quick" else None,
         "budget_s": 60 if tier == "quick" else 900,
         "batch": 50,
     }
 
 
 def run(scenario, params, tape, detail=False):
+    if scenario == "soak":
+        # the whole-stack soak (dst/soak.py): one application object through several connection epochs with traffic, failures and
+        # reconnects; this check reports the clauses of its own property from it
+        from .. import soak
+
+        return soak.run(params, tape, detail=detail)
     V = params["V"] if "V" in params else VERSIONS[tape.draw(len(VERSIONS), "V")]
     sock = params["sock"] if "sock" in params else bool(tape.draw(2, "sock"))
     if "boot" in params:
